@@ -5,4 +5,5 @@
 //verif:include ../C07/jws_env.go
 //verif:include ../C07/jws_content.go
 //verif:harness H_C07_jws_content
+//verif:harness H_C07_jws_content_fold
 package jws
